@@ -68,9 +68,32 @@ def xtcp_class(r):
     return r[:12]
 
 
+def vhs_nontrivial(tok, res):
+    # the frame and payload bytes share a segment, or a segment boundary falls inside the frame, and something was bridged / refused
+    if tok[0] != "hs":
+        return False
+    d = dict(t.split("=", 1) for t in tok[1:] if "=" in t)
+    return res.startswith("hello=ok") and (d.get("g", "-") != "-" or d.get("resp") == "err") and d.get("cuts") != "e0"
+
+
+def vhs_class(r):
+    d = dict(p.split("=", 1) for p in r.split(";") if "=" in p)
+    if "hello" not in d:
+        return r[:12]
+    cuts = d.get("abs", "-")
+    fl = int(d.get("fl", "0") or 0)
+    if cuts == "-":
+        seg = "one-segment"
+    else:
+        offs = [int(x) for x in cuts.split(".")]
+        seg = "byte-by-byte" if len(offs) > 40 else "+".join(sorted({"in-frame" if o < fl else "at-frame-end" if o == fl else "in-payload" for o in offs}))
+    return "%s %s %s%s" % (d["hello"], seg, "intact" if d.get("sent") == d.get("got") else "BROKEN" if d.get("sent") else "nothing",
+                           "" if d.get("end") == "eof" else " end=" + d.get("end", "?"))
+
+
 PROP = {
         "level": "proof",
-        "gens": [],
+        "gens": ["VisitorFacts"],
         "theorems": [
             "Frp.C08.newConn_sound", "Frp.C08.newConn_refused_unchanged", "Frp.C08.newConn_queued_shape",
             "Frp.C08.newConn_not_queued_unchanged", "Frp.C08.newConn_inadmissible_error", "Frp.C08.newConn_error_kinds",
@@ -113,6 +136,14 @@ PROP = {
             "Frp.C08.natVisit_perm_dedup", "Frp.C08.listen_stores", "Frp.C08.register_stores",
             "Frp.C08.fresh_conn_iff", "Frp.C08.listen_then_conn_iff", "Frp.C08.register_then_visit_iff",
             "Frp.C08.natListen_then_visit_iff",
+            # §13 client side: the visitor's handshake leaves the connection intact for every segmentation (Props/C08Hand.lean)
+            "Frp.C08.cread_split", "Frp.C08.cread_le", "Frp.C08.cread_progress", "Frp.C08.direct_ok", "Frp.C08.buffered_ok",
+            "Frp.C08.readFullAux_spec", "Frp.C08.readFull_exact", "Frp.C08.readFrame_exact",
+            "Frp.C08.hs_consumes_exactly_frame", "Frp.C08.visitorEnd_lawful", "Frp.C08.serverEnd_eq",
+            "Frp.C08.hs_stream_complete", "Frp.C08.hs_stream_prefix", "Frp.C08.hs_refused_nothing",
+            "Frp.C08.hs_unreadable_nothing", "Frp.C08.bread_conn_nil", "Frp.C08.bfull_conn_nil", "Frp.C08.bbody_conn_nil",
+            "Frp.C08.bheader_conn_nil", "Frp.C08.hs_buffered_loses", "Frp.C08.hs_buffered_witness",
+            "Frp.C08.visitor_reads_from_handed_conn", "Frp.C08.hsHoldsOn_sound", "Frp.C08.hsHoldsOn_refused",
         ],
         "engines": [
             {"name": "visitor", "quick_n": 9000, "thorough_n": 20000, "thorough_seeds": 5,
@@ -122,6 +153,10 @@ PROP = {
             {"name": "xtcp", "quick_n": 20, "thorough_n": 40, "thorough_seeds": 3,
              "search_n": 8, "search_seeds": 2,
              "nontrivial": xtcp_nontrivial, "result_class": xtcp_class},
+            # one real visitor.Manager + visitor per op against a scripted peer; ~20 ms per op
+            {"name": "vhs", "quick_n": 240, "thorough_n": 1200, "thorough_seeds": 5,
+             "search_n": 120, "search_seeds": 2,
+             "nontrivial": vhs_nontrivial, "result_class": vhs_class},
         ],
         "rule": "visitor engine: (A) the real visitor.Manager and nathole.Controller driven directly, the harness holding "
                 "every listener / sid channel ever returned (accept, drain = negative oracle: every connection that comes out "
@@ -163,7 +198,20 @@ PROP = {
                 "reports who served it, how many backend connections were made on ALL backends together (exactly one, or none), "
                 "whether generated payloads (1 B … 200 KB, several chunkings, both directions) arrived intact, and that a "
                 "fallback did not happen before fallbackTimeoutMs; a result that is a timeout is retried alone once, a wrong "
-                "backend / broken bytes / an unentitled service never",
+                "backend / broken bytes / an unentitled service never. "
+                "vhs engine (client side of an admitted stream): per op a real client/visitor.Manager with a real STCPVisitor, "
+                "SUDPVisitor or XTCPVisitor that falls back (fallbackTimeoutMs) to an STCPVisitor; ConnectServer returns a "
+                "connection (net.Pipe: one Write = one segment; or loopback TCP) to a scripted peer playing frps + owner + "
+                "backend: it checks the NewVisitorConn (name, GetAuthKey signature, declared enc/comp, run id), builds the "
+                "NewVisitorConnResp frame (ok | error), puts the stack of Manager.NewConn (enc with the secret key, comp, as "
+                "declared) on the connection, lets the backend speak first through it (0-3 writes of 1-700 B: text, random, "
+                "frame-header look-alikes; sudp: Ping and UDPPacket frames) and delivers frame ++ image in the segments the op "
+                "names: ONE segment (a relay / TCP that coalesces), one cut inside the frame (after the type byte, inside the "
+                "length, inside the body), exactly behind it (the quiet case), inside the payload (around the 16-byte IV, around "
+                "bufio-sized 460-600 B), several cuts, byte by byte; then the user writes (or only listens), the backend "
+                "answers, the peer closes. The model runs the handshake on the peer's exact wire image at the reported cuts; the "
+                "predicate (what the user read until EOF / the datagrams it got = what the backend wrote, from byte 0; the backend "
+                "read what the user wrote; nothing after a refusal) is evaluated on the implementation's own delivery",
         "trusted": COMMON_TRUST + [
             "models Frp/Model/Visitor.lean, Frp/Model/VisitorLock.lean (+ Frp/Model/Md5.lean for the driver) written by hand; tied by the visitor engine "
             "(real visitor.Manager.Listen/NewConn/CloseListener, InternalListener.PutConn/Close/Accept, nathole.Controller."
@@ -181,6 +229,12 @@ PROP = {
             "KCP and QUIC tunnel sessions, visitor.Manager.TransferConn, STCPVisitor; client/proxy/xtcp.go InWorkConn / "
             "listenByKCP / listenByQUIC; nathole.PreCheck / Prepare / Discover / ExchangeInfo / MakeHole in detect mode 0; "
             "server/proxy/xtcp.go, Controller.HandleVisitor / HandleClient / HandleReport / analysis)",
+            "model Frp/Model/VisitorHandshake.lean (golib readMsg over net.Conn.Read / io.ReadFull on a segmented connection, a bufio "
+            "reader on top, what stcp.go handleConn / sudp.go getNewVisitorConn hand on) written by hand; tied by the regenerated "
+            "fact Gen/VisitorFacts.lean (every msg.ReadMsg / ReadMsgInto call of client/visitor: its reader argument is the "
+            "connection from ConnectServer that is used again afterwards, or a net.Conn parameter) and by the vhs engine (real "
+            "visitor.Manager.UpdateAll / TransferConn, STCPVisitor.handleConn, SUDPVisitor.dispatcher / getNewVisitorConn / worker, "
+            "XTCPVisitor.handleConn fallback, udp.ForwardUserConn, golib crypto / snappy wrappers on both ends)",
             "the harness replaces crypto/rand.Reader by a pass-through reader that stops only calls coming from a vbegin "
             "goroutine (the one place where NewConn can be held up without touching frp)",
         ],
@@ -215,13 +269,18 @@ PROP = {
             "dialled / heard until then (yamux over KCP announces the stream at once); each keepTunnelOpenWorker check opens "
             "and closes a tunnel stream, for which the proxy's frpc dials the backend",
             "byte transparency is proved on an abstract layer algebra (which end applies which of enc/comp, with which key) "
-            "and sampled on the real AES/snappy wrappers by the echo through the real proxy; bandwidth limiter, plugins "
-            "and the client-side visitor/proxy code are not driven here (C01/C19)",
+            "and sampled on the real AES/snappy wrappers by the echo through the real proxy and by the vhs engine's scripted peer; "
+            "bandwidth limiter, plugins and the client-side proxy code are not driven here (C01/C19)",
+            "client-side handshake: a connection is modelled as the list of segments still to arrive (one Read never crosses a "
+            "segment boundary, returns at most what was asked for, at least one byte when something is there); AES-CFB / snappy "
+            "are lawful layers (C01's assumption); read errors in the middle of the frame other than the stream ending, and "
+            "deadlines, are not modelled; net.Pipe stands for the transport (tls / yamux / kcp / quic / websocket connections "
+            "deliver a byte stream in segments all the same; their own framing is C01's / C17's subject)",
         ],
     }
 
 META = {
-        "engine": "lean+harness(visitor,xtcp)",
+        "engine": "lean+harness(visitor,xtcp,vhs)",
         "design_ref": "DESIGN.md §6 C08, §7 item 5",
         "technique": "Lean 4: decision functions proved sound for all listener tables and messages, invariant over all "
                      "operation histories, witness + repaired model behind a switch; differential correspondence with the "
@@ -254,7 +313,13 @@ META = {
                 "session exists only if the server answered the visitor's pre-check and its request signed with "
                 "GetAuthKey(secretKey, now) positively, i.e. for the proxy's key and an allowed user; the stacks both ends put "
                 "on a tunnel stream (secret key, enc next to the wire) mirror each other iff the declarations agree and are "
-                "then byte-transparent both ways (C01's stack lemmas).",
+                "then byte-transparent both ways (C01's stack lemmas). "
+                "Client side (stcp, sudp, the stcp visitor an xtcp visitor falls back to): reading the NewVisitorConnResp from the "
+                "connection itself consumes exactly the frame for EVERY segmentation in which frame and first payload bytes "
+                "arrive (one segment, cuts anywhere, byte by byte), so the user reads exactly what the backend wrote, from byte 0 — "
+                "at every moment a prefix, finally all of it — for all enc/comp declarations, and nothing after a refusal or an "
+                "unreadable frame; a buffered reader that is dropped after the handshake provably loses the whole first burst of "
+                "a coalesced wire (witness); the source reads from the connection it hands on (regenerated from go/ast).",
         "note": "Trusted: Lean kernel; hand-written models tied by the visitor and xtcp engines. Not covered: NAT traversal "
                 "itself beyond loopback (detect modes 1-4, port prediction), openTunnel's 20 s limit and the 10 s pacing "
                 "running out in real time, real AES/snappy beyond the sampled echo, races between closure and admission "
